@@ -15,6 +15,10 @@ MODELLED = ("plumbing/format/commitgraph: MemoryIndex.Add/HasGenerationV2, Commi
             "(OpenFileIndex: header, size, chunk table, chunk sizes, fanout; GetCommitDataByIndex; GetHashByIndex; GetIndexByHash) in "
             "Model/CommitGraph.v; not modelled: the SHA-1 trailer (checked by the oracle), chains (OpenFileIndexWithParent/chain.go: "
             "exercised against git-written split graphs), commitnode_graph.go (exercised by C43)")
+LEVEL_NOTE = ("trusted: Coq 8.16.1 kernel; the correspondence harness; gotrans constants (parentNone, parentOctopusUsed, parentLast, "
+              "chunk sizes) regenerated from the Go source on every run; theorems: chunk-table consistency of the encoder model and "
+              "acceptance of its output by the reader model (header, table of contents, sizes, fanout) for all well-formed inputs; "
+              "per-commit read-back is covered by the correspondence and the read-back oracle, not by a theorem; SHA-1 trailer checked by the oracle")
 TRUSTED = [
     "C-impl: commitgraph.Encoder.Encode / OpenFileIndex vs Model/CommitGraph encode / dump on every case",
     "C-git: git commit-graph verify on every file go-git writes; git commit-graph write --reachable [--split] files read by go-git and compared with values derived from the commit objects",
@@ -83,7 +87,7 @@ class Enc(Suite):
     name = "enc"
     go_cmd = "c51"
     coq_imports = "From GoGit Require Import Model.CommitGraph."
-    quick_n = 60
+    quick_n = 50
     thorough_n = 1500
 
     def gen(self, rng, n, tier):
@@ -209,7 +213,7 @@ class Dec(Suite):
     name = "dec"
     go_cmd = "c51"
     coq_imports = "From GoGit Require Import Model.CommitGraph."
-    quick_n = 40
+    quick_n = 36
     thorough_n = 600
 
     def gen(self, rng, n, tier):
